@@ -173,6 +173,55 @@ Definition ensure_created (ann : list kv) (key now : str) : option (list kv) :=
   | None => Some (ann ++ [(key, now)])
   end.
 
+(* ---------- what encoding/json does to strings ---------- *)
+(* json.Marshal coerces a Go string to valid UTF-8: every byte that does not start a well-formed
+   UTF-8 sequence (utf8.DecodeRuneInString = RuneError, size 1) is replaced by U+FFFD.  So the
+   document that can be read back from the stored bytes is [san_manifest m], not [m]. *)
+Definition in_rng (lo hi c : N) : bool := (lo <=? c) && (c <=? hi).
+Definition utf8_cont (c : N) : bool := in_rng 128 191 c.
+Definition utf8_three (b0 b1 : N) : bool :=
+  ((b0 =? 224) && in_rng 160 191 b1) || (in_rng 225 236 b0 && utf8_cont b1) ||
+  ((b0 =? 237) && in_rng 128 159 b1) || (in_rng 238 239 b0 && utf8_cont b1).
+Definition utf8_four (b0 b1 : N) : bool :=
+  ((b0 =? 240) && in_rng 144 191 b1) || (in_rng 241 243 b0 && utf8_cont b1) ||
+  ((b0 =? 244) && in_rng 128 143 b1).
+Definition ufffd : str := [239; 191; 189].
+
+Fixpoint utf8_san (s : str) : str :=
+  match s with
+  | [] => []
+  | b0 :: r1 =>
+    if b0 <? 128 then b0 :: utf8_san r1
+    else
+      match r1 with
+      | [] => ufffd
+      | b1 :: r2 =>
+        if in_rng 194 223 b0 && utf8_cont b1 then b0 :: b1 :: utf8_san r2
+        else
+          match r2 with
+          | [] => ufffd ++ utf8_san r1
+          | b2 :: r3 =>
+            if utf8_three b0 b1 && utf8_cont b2 then b0 :: b1 :: b2 :: utf8_san r3
+            else
+              match r3 with
+              | [] => ufffd ++ utf8_san r1
+              | b3 :: r4 =>
+                if utf8_four b0 b1 && utf8_cont b2 && utf8_cont b3
+                then b0 :: b1 :: b2 :: b3 :: utf8_san r4
+                else ufffd ++ utf8_san r1
+              end
+          end
+      end
+  end.
+
+Definition san_ann (l : list kv) : list kv := map (fun p => (utf8_san (fst p), utf8_san (snd p))) l.
+(* [d_extra] stands for JSON text of urls / data / platform and is left alone *)
+Definition san_desc (d : desc) : desc :=
+  mkDesc (utf8_san (d_mt d)) (utf8_san (d_dg d)) (d_sz d) (san_ann (d_ann d)) (utf8_san (d_at d)) (d_extra d).
+Definition san_manifest (m : manifest) : manifest :=
+  mkManifest (m_kind m) (option_map san_desc (m_config m)) (option_map (map san_desc) (m_layers m))
+             (option_map san_desc (m_subject m)) (utf8_san (m_at m)) (san_ann (m_ann m)).
+
 (* ---------- the target ---------- *)
 (* how a target decides that two descriptors name the same content *)
 Inductive keykind :=
